@@ -277,6 +277,16 @@ fn separate_rules(text: &str) -> Result<Vec<String>, String> {
         Some(msg) => { return Err(msg); },
     }
 
+    // Text which is left over belongs to a fact or rule which was not
+    // ended by a period (or to a quote which was not closed). It must
+    // not be dropped silently.
+    if rule_str.trim().len() > 0 {
+        let chrs = str_to_chars!(rule_str.trim());
+        let msg = format!("Missing period at end of: {}",
+                          trim_error_line(&chrs));
+        return Err(msg);
+    }
+
     return Ok(rules);
 
 } // separate_rules
